@@ -77,6 +77,17 @@ class GBSys:
                 k, grp = r[1]
                 self.groups.append(grp)
                 return ("group", k.k if isinstance(k, Item) else 1 if k is None else k, 0)
+        elif what == "close":
+            if g > len(self.groups):
+                return ("nogroup", 0, 0)
+            if self.sync:
+                # a synchronous group cannot be closed; what closing means is fixed by the specification:
+                # the group yields nothing more.  The twin keeps standing in for everything else.
+                if g == len(self.groups):       # only the newest group can be live; a stale one yields nothing anyway
+                    self.groups[g - 1] = iter(())
+                return ("closed", 0, 0)
+            r = Task(self.groups[g - 1].aclose(), self.rec.acct).run()
+            return ("closed", 0, 0) if r[0] == "done" else ("raise:" + type(r[1]).__name__, 0, 0)
         else:
             if g > len(self.groups):
                 return ("nogroup", 0, 0)
@@ -142,7 +153,7 @@ def replay_path(args):
 
     for j, e in enumerate(path):
         op, g, kind, key, idx = e["a"]
-        exp = (kind, key, 0) if kind == "group" else (kind, key, idx) if kind == "item" else ("stop", 0, 0)
+        exp = (kind, key, 0) if kind == "group" else (kind, key, idx) if kind == "item" else ("closed", 0, 0) if kind == "closed" else ("stop", 0, 0)
         r1 = real.op(op, g)
         r2 = twin.op(op, g)
         if r2 != exp:
@@ -160,6 +171,25 @@ def replay_path(args):
             cls = "extra-pull" if c1["pos"] + c1["st"] > expc["pos"] + expc["st"] else "missing-pull" if c1["pos"] + c1["st"] < expc["pos"] + expc["st"] else "key-calls-differ"
             bad("C05", cls, j, {"expected": {**expc, "keys": c2["keys"]}, "observed": c1, "op": [op, g]})
             break
+    # drain: what the path left behind must still behave -- the newest group to its end, then the groupby,
+    # and so on until the input is used up (the twin stands for the specification, as checked above)
+    if not out:
+        for _ in range(2 * len(data) + 4):
+            g = len(real.groups)
+            if g:
+                r1, r2 = real.op("grp", g), twin.op("grp", g)
+                if r1 == r2 and r1[0] == "item":
+                    continue
+            else:
+                r1 = r2 = None
+            if r1 == r2:
+                r1, r2 = real.op("gb", 0), twin.op("gb", 0)
+            if r1 != r2:
+                cls = "live-group-ends-early" if r2[0] == "item" and r1[0] == "stop" else f"{r1[0]}-instead-of-{r2[0]}"
+                bad("C16", cls + "+after-the-history", len(path), {"expected": r2, "observed": r1})
+                break
+            if r1[0] == "stop":
+                break
     if not real.rec.acct.ok():
         bad("C17", "foreign-suspension", len(path), {"acct": real.rec.acct.describe()})
     # C04: closing the handle (even if never advanced) closes the source and never fails
@@ -216,7 +246,10 @@ def random_history(args):
     ev, viol = [], []
     stops = 0
     for j in range(rnd.randint(5, 25)):
-        if real.groups and rnd.random() < 0.7:
+        x = rnd.random()
+        if real.groups and x < 0.1:
+            op, g = "close", rnd.randint(max(1, len(real.groups) - 2), len(real.groups))
+        elif real.groups and x < 0.7:
             op, g = "grp", rnd.randint(max(1, len(real.groups) - 2), len(real.groups))
         else:
             op, g = "gb", 0
